@@ -137,6 +137,7 @@ def runDict (c : Case) (m : DictModel) (emit : Nat → String → IO Unit) : IO 
       | some img => emit k s!"I {hexOfBytes img}"
       | none => emit k "I ?"
     | ["save2"] => emit k "S2 same"
+    | "blocksdet" :: _ => emit k "BD same"
     | "reload" :: _ => emit k "R ok consumed=all"
     | "resave" :: _ => emit k "RS same"
     | ["foreign", _] => emit k "F NULL"
